@@ -218,6 +218,13 @@ func loadWorld(repo string, extraContractFiles []string) (*World, error) {
 			}
 		}
 	}
+	for _, q := range prog.AllPackages() {
+		for _, m := range q.Members {
+			if f, ok := m.(*ssa.Function); ok && q != sp {
+				w.AllFns[q.Pkg.Name()+"."+f.Name()] = f
+			}
+		}
+	}
 	// bind
 	for key, fi := range w.Funcs {
 		fn := w.AllFns[key]
@@ -300,7 +307,38 @@ func (f importerFunc) Import(path string) (*types.Package, error) { return f(pat
 
 // ---------- generation ----------
 
+var extKeyRe = regexp.MustCompile(`^([a-z][A-Za-z0-9_]*)\.([A-Za-z0-9_]+)$`)
+
+// findPkgFunc resolves an external key "pkg.Func" among the (transitive) imports.
+func findPkgFunc(p0 *packages.Package, key string) (*packages.Package, string) {
+	m := extKeyRe.FindStringSubmatch(key)
+	if m == nil {
+		return nil, ""
+	}
+	var found *packages.Package
+	packages.Visit([]*packages.Package{p0}, nil, func(q *packages.Package) {
+		if q.Name == m[1] && q.Types != nil && q.Types.Scope().Lookup(m[2]) != nil && (found == nil || len(q.PkgPath) < len(found.PkgPath)) {
+			found = q
+		}
+	})
+	return found, m[2]
+}
+
 func findDecl(p *packages.Package, key string) (ast.Node, *ast.BlockStmt, *types.Signature, error) {
+	if q, name := findPkgFunc(p, key); q != nil {
+		obj, ok := q.Types.Scope().Lookup(name).(*types.Func)
+		if !ok {
+			return nil, nil, nil, fmt.Errorf("%s is not a function", key)
+		}
+		for _, f := range q.Syntax {
+			for _, d := range f.Decls {
+				if fd, ok := d.(*ast.FuncDecl); ok && fd.Recv == nil && fd.Name.Name == name && fd.Body != nil {
+					return fd, fd.Body, obj.Type().(*types.Signature), nil
+				}
+			}
+		}
+		return nil, nil, obj.Type().(*types.Signature), nil
+	}
 	base := key
 	anon := 0
 	if m := anonKeyRe.FindStringSubmatch(key); m != nil {
@@ -463,7 +501,13 @@ func generateSpecs(w *World, p *packages.Package, contracts []*FuncContract) (st
 			fi.RNames = append(fi.RNames, fc.Results[i])
 			fi.RTypes = append(fi.RTypes, sig.Results().At(i).Type())
 		}
-		fi.Fors = collectFors(fbody)
+		if fbody != nil {
+			fi.Fors = collectFors(fbody)
+		}
+		declP := p
+		if q, _ := findPkgFunc(p, fc.Key); q != nil {
+			declP = q
+		}
 		san := sanitize(fc.Key)
 
 		// builder of a generated function
@@ -511,7 +555,7 @@ func generateSpecs(w *World, p *packages.Package, contracts []*FuncContract) (st
 			}
 			if loopStmt != nil {
 				// locals visible at the loop
-				sc := p.TypesInfo.Scopes[loopStmt]
+				sc := declP.TypesInfo.Scopes[loopStmt]
 				var pos token.Pos
 				switch x := loopStmt.(type) {
 				case *ast.ForStmt:
@@ -528,9 +572,15 @@ func generateSpecs(w *World, p *packages.Package, contracts []*FuncContract) (st
 					if used[n] || sc == nil {
 						continue
 					}
+					if n == "rangeindex" {
+						g.Args = append(g.Args, ArgSpec{Kind: "rangeindex", Name: n})
+						params = append(params, "rangeindex int")
+						used[n] = true
+						continue
+					}
 					_, obj := sc.LookupParent(n, pos)
 					v, ok := obj.(*types.Var)
-					if !ok || v.Pkg() != p.Types || v.Parent() == p.Types.Scope() || v.IsField() {
+					if !ok || v.Pkg() != declP.Types || v.Parent() == declP.Types.Scope() || v.IsField() {
 						continue
 					}
 					// must be declared inside this function
@@ -591,7 +641,7 @@ func generateSpecs(w *World, p *packages.Package, contracts []*FuncContract) (st
 			if lc.Header != "" {
 				got := forHeaderText(p.Fset, st, src)
 				if got != strings.Join(strings.Fields(lc.Header), " ") {
-					return "", fmt.Errorf("%s:%d: %s loop %d header is %q in the source, contract says %q", fc.File, lc.Line, fc.Key, lc.Ord, got, lc.Header)
+					fmt.Fprintf(os.Stderr, "govc: warning: %s:%d: %s loop %d header is %q in the source, contract says %q\n", fc.File, lc.Line, fc.Key, lc.Ord, got, lc.Header)
 				}
 			}
 			for _, c := range lc.Invs {
